@@ -495,6 +495,16 @@ func quoteStyle(s string, single bool, r *core.Rand, plain bool) string {
 	for i := 0; i < len(s); i++ {
 		c := s[i]
 		switch {
+		case !plain && c >= 0x20 && c < 0x7f && (((c == '"' || c == '\'') && r.Chance(1, 4)) || r.Chance(1, 40)):
+			// numeric escapes denote the character whatever the quoting style
+			switch r.Intn(3) {
+			case 0:
+				fmt.Fprintf(&sb, `\x%02x`, c)
+			case 1:
+				fmt.Fprintf(&sb, `\u%04x`, c)
+			default:
+				fmt.Fprintf(&sb, `\%03o`, c)
+			}
 		case c == '\\':
 			sb.WriteString(`\\`)
 		case c == q:
